@@ -4,8 +4,10 @@ import (
 	"encoding/json"
 	"errors"
 	"fmt"
+	"maps"
 	"net/http"
 	"net/url"
+	"slices"
 
 	"github.com/nyaruka/gocommon/httpx"
 	"github.com/nyaruka/gocommon/jsonx"
@@ -46,7 +48,9 @@ func (e *Entities) UnmarshalJSON(data []byte) error {
 
 	// now we can parse the rest as string lists
 	e.Values = make(map[string][]string, len(asMap))
-	for key, data := range asMap {
+	// in key order so that the same error is reported every time
+	for _, key := range slices.Sorted(maps.Keys(asMap)) {
+		data := asMap[key]
 		var v []string
 		if err := jsonx.Unmarshal(data, &v); err != nil {
 			return err
